@@ -48,7 +48,8 @@ RULE = ("position / illum / secular: Hypothesis epochs (fractional years -2000..
         "sample, thorough: 10x more years.  Non-trivial: |year - 2000| > 1000, or a query on / "
         "next to a leap day, or a walk step across a change of the event returned (change of "
         "the lunation count k); distinct = distinct case (walk steps are distinct by "
-        "construction).")
+        "construction)."
+        " Target strings are run-time-built (not the interned literal) for half of the queries. defaults: Hypothesis (epoch, order of 2-5 finder calls with the target left out) compared with the default target spelled out. One walk in six starts within 110 d before / 20 d after J2000 so that it straddles the reference epochs (k = 0) of the series; the daily walks include 1999 and 2000.")
 ASSUMPTIONS = [
     "one 'month' in the 1.6-month clause is the mean month of the finder: synodic 29.530589 d "
     "(phases), anomalistic 27.554550 d (perigee/apogee), draconic 27.212221 d (nodes), tropical "
